@@ -66,7 +66,7 @@ vars == <<S, slots, hslots, itab, htab, nexti, nexth, size0, sw, taint, bad, nop
 View == <<S, slots, hslots, itab, htab, nexti, nexth, sw, taint, bad, nops>>
 
 Export == 2
-X == [root |-> Export, no_open |-> Cfg.no_open, no_opendir |-> FALSE, xattr |-> TRUE, big |-> {}]
+X == [root |-> Export, no_open |-> Cfg.no_open, no_opendir |-> FALSE, xattr |-> TRUE, big |-> {}, wb |-> Cfg.wb]
 FlOrder == <<"WR", "RDWR", "APPEND", "TRUNC", "EXCL">>
 FlSeq(fs) == SelectSeq(FlOrder, LAMBDA f : f \in fs)
 FlNum(fs) == (IF "WR" \in fs THEN 1 ELSE 0) + (IF "RDWR" \in fs THEN 2 ELSE 0) + (IF "APPEND" \in fs THEN 1024 ELSE 0)
